@@ -4,7 +4,7 @@ from core import World
 from gen import Call, Gen, mode_line, cfg_line
 from suites import gen_history, emit_exec, exp_silent, exp_same_fs, run_suite, gen_nest, emit_nested
 
-LEAN_MODULES = ['GoSnaps.Props.C01', 'GoSnaps.Props.C01World', 'GoSnaps.Props.Tie.Path', 'GoSnaps.Props.Tie.Escape', 'GoSnaps.Props.Tie.Snapshot', 'GoSnaps.Props.Tie.SnapshotIO', 'GoSnaps.Props.Tie.Registry', 'GoSnaps.Props.Tie.Flows', 'GoSnaps.Props.Tie.EndToEnd']
+LEAN_MODULES = ['GoSnaps.Props.C01', 'GoSnaps.Props.C01World', 'GoSnaps.Props.Tie.Path', 'GoSnaps.Props.Tie.Escape', 'GoSnaps.Props.Tie.Snapshot', 'GoSnaps.Props.Tie.SnapshotIO', 'GoSnaps.Props.Tie.Registry', 'GoSnaps.Props.Tie.Flows', 'GoSnaps.Props.Tie.EndToEnd', 'GoSnaps.Props.Tie.Wrappers']
 REPLAY_MODES = [(False, ''), (False, 'true'), (True, ''), (False, 'clean'), (True, 'true')]
 
 
